@@ -32,6 +32,7 @@ class Obl:
     only: str = ""          # regex: of the harness's own OBS assertions, only these belong to this property
     confirm: str = ""       # confirmation harness run when only INT (representation) assertions fail
     mem_gb: int = 0         # estimated peak memory of the CBMC run (heavy ones are run with fewer jobs)
+    expect_panic: str = ""  # regex: the harness is expected to end in this panic of the library on every path (anything else that fails is a failure)
     no_playback: str = ""   # reason why a counterexample of this harness cannot be replayed by a native single-threaded run
 
 
@@ -957,8 +958,9 @@ def _c19() -> List[Obl]:
             tier = "quick" if w in QUICK_W else "thorough"
             W = f"BufBitWriter<{E},_<{w}>>"
             out.append(Obl(id=f"c19.checks.panic.{E}.{w}", prop="C19", engine="kani", target=f"obl_c01::{el}::{w}_::c19_write_bits_dirty_panics", tier=tier,
-                           features="checks", fns=[f"{W}::write_bits (argument check)"],
-                           note="should_panic harness: every value with a bit at or above n panics; reaching the end of the call is a non-panic failure"))
+                           features="checks", fns=[f"{W}::write_bits (argument check)"], expect_panic=r"does not fit",
+                           note="every value with a bit at or above n_bits (every n_bits in 0..=63, every writer state) ends in the library's own panic; "
+                                "returning from the call is the failure"))
             out.append(Obl(id=f"c19.checks.clean.{E}.{w}", prop="C19", engine="kani", target=f"obl_c01::{el}::{w}_::c01_write_bits", tier=tier,
                            features="checks", fns=[f"{W}::write_bits"], note="clean arguments: no panic and the same postcondition as without the option"))
     # in-domain code writes never trip the check (the model asserts the `checks` precondition on every write_bits it receives)
